@@ -14,6 +14,7 @@ from pathlib import Path
 sys.dont_write_bytecode = False
 HOME = tempfile.mkdtemp(prefix="verif_finding_")
 os.environ["HOME"] = HOME
+__import__("atexit").register(__import__("shutil").rmtree, HOME, ignore_errors=True)
 
 from mxlpy import sbml  # noqa: E402
 
